@@ -206,6 +206,20 @@ pub fn make_case(progs: &[Vec<L>], mailbox: Mailbox, yields: u8, bound: Option<u
     make_case_t(progs, mailbox, yields, bound, None)
 }
 
+/// a handler timeout of 2 ticks (carry on) is configured, nothing is slow, but client 0 only
+/// starts after the actor has been idle for 3 ticks, and pauses 3 more ticks before its last message
+pub fn make_case_gap(progs: &[Vec<L>], mailbox: Mailbox) -> Case {
+    GAP.with(|g| g.set(true));
+    let mut c = make_case_t(progs, mailbox, 0, None, None);
+    GAP.with(|g| g.set(false));
+    c.desc = c.desc.replacen("fifo", "fifo [timeout 2, idle gaps]", 1);
+    c
+}
+
+thread_local! {
+    static GAP: std::cell::Cell<bool> = const { std::cell::Cell::new(false) };
+}
+
 /// `slow`: a handler timeout of 2 ticks (carry on) is configured and the message with this
 /// index of client 0 needs 5 ticks - it is abandoned, everything else must be unaffected
 pub fn make_case_t(progs: &[Vec<L>], mailbox: Mailbox, yields: u8, bound: Option<u32>, slow: Option<usize>) -> Case {
@@ -214,6 +228,13 @@ pub fn make_case_t(progs: &[Vec<L>], mailbox: Mailbox, yields: u8, bound: Option
     for (c, p) in progs.iter().enumerate() {
         let mut ops: Vec<Op> = p.iter().enumerate().map(|(i, l)| to_op(*l, msg_id(c, i))).collect();
         nsub.push(ops.len());
+        if c == 0 && GAP.with(|g| g.get()) {
+            // idle for 3 ticks before the first message and before the last one
+            if ops.len() > 1 {
+                ops.insert(ops.len() - 1, Op::Sleep(3));
+            }
+            ops.insert(0, Op::Sleep(3));
+        }
         let mut init = FULL.to_vec();
         if c == 0 {
             init.push(HInit::Own);
@@ -224,6 +245,9 @@ pub fn make_case_t(progs: &[Vec<L>], mailbox: Mailbox, yields: u8, bound: Option
     }
     let mut role = RoleCfg { default_work: Work { yields, ..Work::default() }, ..RoleCfg::default() };
     let mut spawn = SpawnCfg::plain(mailbox);
+    if GAP.with(|g| g.get()) {
+        spawn.timeout = Some((2, false));
+    }
     if let Some(k) = slow {
         role.work.push((msg_id(0, k), Work { sleep: 5, ..Work::default() }));
         spawn.timeout = Some((2, false));
@@ -308,6 +332,20 @@ fn plain_cases(tier: Tier) -> Vec<Case> {
         for a in seqs(&talpha, 2) {
             for b in seqs(&talpha, 1) {
                 v.push(make_case_t(&[a.clone(), b], mb, 0, None, Some(0)));
+            }
+        }
+    }
+    // a handler timeout is configured, nothing is slow, but the actor sits idle between messages
+    for &mb in &mailboxes {
+        for p in seqs(&talpha, 2) {
+            v.push(make_case_gap(&[p], mb));
+        }
+        for p in seqs(&talpha, 3) {
+            v.push(make_case_gap(&[p], mb));
+        }
+        for a in seqs(&talpha, 2) {
+            for b in seqs(&talpha, 1) {
+                v.push(make_case_gap(&[a.clone(), b], mb));
             }
         }
     }
